@@ -31,6 +31,29 @@ Theorem C12_source_split_unsplit : forall K,
     (let '(k1, i1, p1) := e in let '(k2, i2, p2) := d in tr_vanilla_unsplit k1 i1 p1 k2 i2 p2) = Some (inl (d, e)).
 Proof. exact vanilla_source_split_unsplit. Qed.
 
+(* the two methods of the combined objects that have a body of their own -- vanilla HeaderCrypto::decrypt_client_header
+   and wrath ServerCrypto::decrypt_client_header -- as translated, with the object's raw decrypt being the half's raw
+   decrypt on the decrypting half (the delegation table), do exactly what the half's method as translated does on
+   that half: same header, same new half, the other half untouched.  For every raw cipher that keeps lengths. *)
+Theorem C12_source_own_bodies : forall (H C : Type) (get : C -> H) (set : C -> H -> C)
+    (raw : H -> list N -> option (H * list N)) (c : C) (data : list N),
+  (forall h d h' o, raw h d = Some (h', o) -> length o = length d) -> length data = 6%nat ->
+  let lifted := fun c d => match raw (get c) d with Some (h, o) => Some (set c h, o) | None => None end in
+  tr_vanilla_crypto_decrypt_client_header lifted c data
+    = match tr_vanilla_decrypt_client_header raw (get c) data with Some (h, hd) => Some (set c h, hd) | None => None end /\
+  tr_wrath_server_crypto_decrypt_client_header lifted c data
+    = match tr_wrath_decrypt_client_header raw (get c) data with Some (h, hd) => Some (set c h, hd) | None => None end.
+Proof.
+  intros H C get set raw c data Hraw Hl lifted. subst lifted.
+  unfold tr_vanilla_crypto_decrypt_client_header, tr_vanilla_decrypt_client_header,
+         tr_wrath_server_crypto_decrypt_client_header, tr_wrath_decrypt_client_header.
+  destruct (raw (get c) data) as [[h o]|] eqn:E; [|split; reflexivity].
+  pose proof (Hraw _ _ _ _ E) as L. rewrite Hl in L.
+  destruct o as [|b0 [|b1 [|b2 [|b3 [|b4 [|b5 [|]]]]]]]; try discriminate L.
+  split; reflexivity.
+Qed.
+
 Print Assumptions C12_source_unsplit_iff.
 Print Assumptions C12_source_split.
 Print Assumptions C12_source_split_unsplit.
+Print Assumptions C12_source_own_bodies.
